@@ -17,6 +17,7 @@ RULE = (
     "all ordered tuples (length 0..3, 4 for 1-D thorough) over the droplet-type lattice x all min_distance values x all metrics; "
     "reference: own minimal-image distance matrix; non-trivial = at least one pair closer than min_distance; "
     "from_random: seeds 0..15 (31 thorough) x {grid, bounds} x dim 1-3 x radius spec, enumerated completely"
+    "; boxes are non-cubic; a disparate-radius family (0.01 / 2.0) and a perturbed-member family; from_random also with polar, spherical (annular) and cylindrical regions"
 )
 ASSUMPTIONS = [
     "droplet types restricted to the lattice; surface distances within 1e-9 of min_distance / of zero are treated as ambiguous",
